@@ -76,6 +76,8 @@ def evaluate(model, Hcls, Icls, build, entries):
             sigarg = mk_point(dom, list(attrs['sigma_elem']))
         elif attrs.get('sigmas') is not None:
             sigarg = list(attrs['sigmas'])
+        elif attrs.get('sigma_num') is not None:
+            sigarg = attrs['sigma_num']
         A = I.call(I.getattr_value(A, 'proximal'), [sigarg], {})
     dom = I.getattr_value(A, 'domain')
     ran = I.getattr_value(A, 'range')
